@@ -682,6 +682,12 @@ func (w *world) seq(out *c.Out, seq int, r *c.Rng) {
 					}
 				}
 				di := idx(denoms, d)
+				if di < 0 {
+					// the conversion succeeded although the parameters in the store enable no pair for this
+					// contract (the case line above carries the same fact to the driver's C10_disabled_refused)
+					out.Violation(fmt.Sprintf("C10 conversion of a pair that the stored parameters do not enable succeeded seq=%d op=%d kind=%s contract=%s", seq, i, kind, x))
+					break
+				}
 				got := new(big.Int).Sub(post.bank[di][b], pre.bank[di][b])
 				fo = &forcedOp{kind: "c2e", a: b, b: a, x: d, amt: got, rtPre: pre, rtKind: "native", rtA: a, rtB: b, rtX: x, rtAmt: amt}
 			case "cc2e":
